@@ -8,7 +8,9 @@ slice bound, exception clause, loop condition, ...) is outside the translator's 
 raises `TieBroken` — the runner then treats the tie as broken and the property oracle, which
 is always evaluated on the real code, decides whether there is a failing input.
 
-Two statements are known in two admissible forms (as shipped / repaired, see fixes/C18-*.md);
+Four statements are known in two admissible forms (as shipped / repaired, see fixes/C18-*.md:
+the OEM data slice, the description codec, the OEM data assignment guarded by `if
+self.oem_data_length:` or not, the outcome of the status polls ignored or checked);
 which one the code has is decided by *probing its behaviour* in harness/props/c18.py, not here.
 """
 import ast
@@ -187,6 +189,34 @@ def wait_for_long_duration_command(self, expected_cmd, timeout, interval):
             time.sleep(interval)
         except IOError:
             time.sleep(interval)
+''', '''
+def wait_for_long_duration_command(self, expected_cmd, timeout, interval):
+    start_time = time.time()
+    last_cc = HOLE_cc_in_progress
+    while time.time() < start_time + timeout:
+        try:
+            status = self.get_upgrade_status()
+            if status.command_in_progress is not expected_cmd \\
+                    and status.command_in_progress != HOLE_cmd_status:
+                pass
+            last_cc = status.last_completion_code
+            if last_cc == HOLE_cc_in_progress:
+                time.sleep(interval)
+            elif last_cc != HOLE_cc_ok:
+                raise HpmError('long duration command 0x%02x CC=0x%02x'
+                               % (expected_cmd, last_cc))
+            else:
+                return
+        except IpmiTimeoutError:
+            last_cc = None
+            time.sleep(interval)
+        except IOError:
+            last_cc = None
+            time.sleep(interval)
+
+    if last_cc is not None:
+        raise HpmError('long duration command 0x%02x still in progress '
+                       'after %ss' % (expected_cmd, timeout))
 ''']
 
 T_STATUS = ['''
@@ -221,14 +251,16 @@ def _from_data(self, data):
     self.firmware_revision = \\
         VersionField(data[HOLE_fr_start:HOLE_fr_start + HOLE_version_aux_len])
 
-    if self.oem_data_length:
-        self.oem_data = %s
+%s
     # XXX checksum check
     self.checksum = data[HOLE_oem_start + self.oem_data_length]
     self.length = HOLE_oem_start + self.oem_data_length+HOLE_header_chk_len
 '''
-T_HEADER = [_HDR % 'data[HOLE_oem_start:-1]',
-            _HDR % 'data[HOLE_oem_start:HOLE_oem_start + self.oem_data_length]']
+_OEM_IF = '''    if self.oem_data_length:
+        self.oem_data = %s'''
+T_HEADER = [_HDR % (_OEM_IF % 'data[HOLE_oem_start:-1]'),
+            _HDR % (_OEM_IF % 'data[HOLE_oem_start:HOLE_oem_start + self.oem_data_length]'),
+            _HDR % '    self.oem_data = data[HOLE_oem_start:HOLE_oem_start + self.oem_data_length]']
 
 T_HEADER_INIT = ['''
 def __init__(self, data=None):
@@ -403,6 +435,7 @@ def extract():
     if w['cc_in_progress'] != k['cc_in_progress']:
         raise TieBroken('two different in-progress codes')
     k['cmd_status'] = w['cmd_status']
+    k['cc_ok'] = w.get('cc_ok', 0)      # the as-shipped form never looks at the final code
     _extract('Hpm.get_upgrade_status', H.Hpm.get_upgrade_status, T_STATUS, scope)
     _extract('UpgradeStatus._from_response', H.UpgradeStatus._from_response, T_STATUS_RSP, scope)
     # header
@@ -475,7 +508,7 @@ def generate():
                 'up_data_start', 'up_len_extra', 'trailer_len',
                 'block_size', 'first_block', 'block_incr', 'block_mask', 'cc_in_progress',
                 'retry_dec', 'retry_floor', 'default_retry', 'default_timeout_tenths',
-                'default_interval_tenths', 'cmd_upload_block', 'cmd_status']
+                'default_interval_tenths', 'cmd_upload_block', 'cmd_status', 'cc_ok']
     for key in nat_keys:
         out.append('def %s : Nat := %d' % (_camel(key), int(k[key])))
     out.append('def fwLengthLe : Bool := %s' % ('true' if k['fw_length_le'] else 'false'))
